@@ -131,3 +131,165 @@ Qed.
 (* each of those rounding errors is at most half an ulp of the compensation itself *)
 Lemma comp_round_small c e : Rabs (fl64 (c + e) - (c + e)) <= / 2 * ulp radix2 fexp (c + e).
 Proof. unfold fl64, fexp. apply error_le_half_ulp; typeclasses eauto. Qed.
+
+(* ---- the error of the reported window sum: first order in the WINDOW, second order in the HISTORY ---- *)
+From Flocq Require Import Relative Plus_error.
+
+Definition u64 : R := u_ro radix2 prec.          (* 2^-53 *)
+
+Lemma u64_nonneg : 0 <= u64.
+Proof. apply u_ro_pos. Qed.
+
+(* an addition of two binary64 numbers is off by at most u relative to its exact and to its rounded result *)
+Lemma fl64_plus_rel x y : fmt64 x -> fmt64 y -> exists eps, Rabs eps <= u64 /\ fl64 (x + y) = (x + y) * (1 + eps).
+Proof.
+  intros Fx Fy. destruct (FLT_plus_error_N_ex radix2 emin prec choiceE x y Fx Fy) as [eps [He H]].
+  exists eps. split; [|exact H]. eapply Rle_trans; [exact He|]. apply u_rod1pu_ro_le_u_ro.
+Qed.
+
+Lemma fl64_plus_rel_round x y : fmt64 x -> fmt64 y -> exists eps, Rabs eps <= u64 /\ x + y = fl64 (x + y) * (1 + eps).
+Proof.
+  intros Fx Fy. exact (FLT_plus_error_N_round_ex radix2 emin prec choiceE x y Fx Fy).
+Qed.
+
+Lemma fmt64_err_term s x : fmt64 (err_term s x).
+Proof. unfold err_term. destruct (Rle_dec _ _); apply fmt_fl. Qed.
+
+(* each recorded error term is at most u times the running sum it corrects *)
+Lemma err_term_rel s x : fmt64 s -> fmt64 x -> Rabs (err_term s x) <= u64 * Rabs (fl64 (s + x)).
+Proof.
+  intros Fs Fx. pose proof (err_term_exact s x Fs Fx) as He.
+  destruct (fl64_plus_rel_round s x Fs Fx) as [eps [Hb Hr]].
+  replace (err_term s x) with (fl64 (s + x) * eps) by lra.
+  rewrite Rabs_mult, Rmult_comm. apply Rmult_le_compat_r; [apply Rabs_pos | exact Hb].
+Qed.
+
+(* running sums bounded by H along a sequence of updates *)
+Fixpoint sums_le (xs : list R) (s H : R) : Prop :=
+  match xs with [] => True | x :: t => Rabs (fl64 (s + x)) <= H /\ sums_le t (fl64 (s + x)) H end.
+
+(* bounds on the compensation and on the accumulated rounding of the compensation, by recurrence *)
+Fixpoint Abound (n : nat) (H a : R) : R := match n with O => a | S k => Abound k H ((1 + u64) * (a + u64 * H)) end.
+Fixpoint Dbound (n : nat) (H a : R) : R := match n with O => 0 | S k => u64 * (a + u64 * H) + Dbound k H ((1 + u64) * (a + u64 * H)) end.
+
+Theorem krun_bounds xs : forall s c D H a, fmt64 s -> fmt64 c -> Forall fmt64 xs -> sums_le xs s H -> Rabs c <= a ->
+  let '(s', c', D') := krun xs s c D in
+  fmt64 s' /\ fmt64 c' /\ Rabs c' <= Abound (length xs) H a /\ Rabs (D' - D) <= Dbound (length xs) H a.
+Proof.
+  induction xs as [|x t IH]; intros s c D H a Fs Fc Fxs Hs Hc; cbn [krun length Abound Dbound].
+  - repeat split; auto. replace (D - D) with 0 by lra. rewrite Rabs_R0. lra.
+  - inversion Fxs as [|? ? Fx Ft]; subst. destruct Hs as [Hs1 Hs2].
+    set (e := err_term s x). set (c1 := fl64 (c + e)).
+    assert (Fe : fmt64 e) by apply fmt64_err_term.
+    assert (He : Rabs e <= u64 * H).
+    { eapply Rle_trans; [apply err_term_rel; assumption|]. apply Rmult_le_compat_l; [apply u64_nonneg | exact Hs1]. }
+    destruct (fl64_plus_rel c e Fc Fe) as [eps [Hb Hr]]. fold c1 in Hr.
+    assert (Hce : Rabs (c + e) <= a + u64 * H).
+    { eapply Rle_trans; [apply Rabs_triang|]. lra. }
+    assert (Hc1 : Rabs c1 <= (1 + u64) * (a + u64 * H)).
+    { rewrite Hr, Rabs_mult. rewrite (Rmult_comm (1 + u64)).
+      apply Rmult_le_compat; [apply Rabs_pos | apply Rabs_pos | exact Hce |].
+      eapply Rle_trans; [apply Rabs_triang|]. rewrite Rabs_R1. lra. }
+    assert (Hd : Rabs (c1 - (c + e)) <= u64 * (a + u64 * H)).
+    { replace (c1 - (c + e)) with ((c + e) * eps) by (rewrite Hr; ring).
+      rewrite Rabs_mult, Rmult_comm. apply Rmult_le_compat; [apply Rabs_pos | apply Rabs_pos | exact Hb | exact Hce]. }
+    specialize (IH (fl64 (s + x)) c1 (D + (c1 - (c + e))) H ((1 + u64) * (a + u64 * H)) (fmt_fl _) (fmt_fl _) Ft Hs2 Hc1).
+    destruct (krun t (fl64 (s + x)) c1 (D + (c1 - (c + e)))) as [[s' c'] D'].
+    destruct IH as [F1 [F2 [B1 B2]]]. repeat split; auto.
+    replace (D' - D) with ((c1 - (c + e)) + (D' - (D + (c1 - (c + e))))) by ring.
+    eapply Rle_trans; [apply Rabs_triang|]. lra.
+Qed.
+
+(* the value the kernel reports, fl(s + c), against the exact sum W of all updates (= the sum of the window's content):
+   off by at most u |W| plus (1 + u) times the second-order term Dbound *)
+Theorem reported_sum_error xs H : Forall fmt64 xs -> sums_le xs 0 H ->
+  let '(s', c', _) := krun xs 0 0 0 in
+  Rabs (fl64 (s' + c') - rsum xs) <= u64 * Rabs (rsum xs) + (1 + u64) * Dbound (length xs) H 0.
+Proof.
+  intros Fxs Hs.
+  assert (F0 : fmt64 0) by apply generic_format_0.
+  pose proof (krun_exact xs 0 0 0 F0 Fxs) as He.
+  pose proof (krun_bounds xs 0 0 0 H 0 F0 F0 Fxs Hs) as Hb. rewrite Rabs_R0 in Hb. specialize (Hb (Rle_refl 0)).
+  destruct (krun xs 0 0 0) as [[s' c'] D']. destruct Hb as [Fs [Fc [_ Hd]]].
+  replace (D' - 0) with D' in * by lra.
+  assert (Hsc : s' + c' = rsum xs + D') by lra.
+  destruct (fl64_plus_rel s' c' Fs Fc) as [eps [Hbe Hr]].
+  rewrite Hr, Hsc.
+  replace ((rsum xs + D') * (1 + eps) - rsum xs) with (rsum xs * eps + D' * (1 + eps)) by ring.
+  eapply Rle_trans; [apply Rabs_triang|]. rewrite !Rabs_mult.
+  pose proof u64_nonneg as Hu.
+  apply Rplus_le_compat.
+  - rewrite Rmult_comm. apply Rmult_le_compat_r; [apply Rabs_pos | exact Hbe].
+  - rewrite Rmult_comm. apply Rmult_le_compat.
+    + apply Rabs_pos.
+    + apply Rabs_pos.
+    + eapply Rle_trans; [apply Rabs_triang|]. rewrite Rabs_R1. lra.
+    + exact Hd.
+Qed.
+
+(* the recurrences in closed form: with q = 1 + u,  Abound n H 0 <= n u H q^n  and  Dbound n H 0 <= n^2 u^2 H q^n:
+   the history (H bounds every running sum there ever was) enters the reported value at second order only *)
+Lemma Abound_mono n : forall H a b, 0 <= H -> a <= b -> Abound n H a <= Abound n H b.
+Proof.
+  induction n as [|n IH]; intros H a b HH Hab; cbn [Abound]; [exact Hab|].
+  apply IH; [exact HH|]. pose proof u64_nonneg. nra.
+Qed.
+
+Definition q64 : R := 1 + u64.
+
+Lemma q64_pow_ge1 n : 1 <= q64 ^ n.
+Proof. apply pow_R1_Rle. unfold q64. pose proof u64_nonneg. lra. Qed.
+
+Lemma step_le H a n : 0 <= H -> 0 <= a ->
+  q64 * (a + u64 * H) + INR n * u64 * H <= q64 * (a + INR (S n) * u64 * H).
+Proof.
+  intros HH Ha. rewrite S_INR. unfold q64. pose proof u64_nonneg as Hu. pose proof (pos_INR n) as Hn.
+  assert (0 <= INR n * u64 * H) by (apply Rmult_le_pos; [apply Rmult_le_pos|]; assumption).
+  nra.
+Qed.
+
+Lemma Abound_closed n : forall H a, 0 <= H -> 0 <= a -> Abound n H a <= (a + INR n * u64 * H) * q64 ^ n.
+Proof.
+  induction n as [|n IH]; intros H a HH Ha.
+  - cbn [Abound INR pow]. lra.
+  - cbn [Abound]. pose proof u64_nonneg as Hu.
+    assert (Ha' : 0 <= (1 + u64) * (a + u64 * H)) by (apply Rmult_le_pos; nra).
+    eapply Rle_trans; [apply IH; assumption|].
+    change (q64 ^ S n) with (q64 * q64 ^ n). fold q64.
+    pose proof (q64_pow_ge1 n) as Hq. pose proof (step_le H a n HH Ha) as Hs. fold q64 in Hs.
+    assert (0 <= q64 ^ n) by lra.
+    replace ((a + INR (S n) * u64 * H) * (q64 * q64 ^ n)) with ((q64 * (a + INR (S n) * u64 * H)) * q64 ^ n) by ring.
+    apply Rmult_le_compat_r; assumption.
+Qed.
+
+Lemma Dbound_closed n : forall H a, 0 <= H -> 0 <= a ->
+  Dbound n H a <= INR n * u64 * (a + INR n * u64 * H) * q64 ^ n.
+Proof.
+  induction n as [|n IH]; intros H a HH Ha.
+  - cbn [Dbound INR pow]. lra.
+  - cbn [Dbound]. pose proof u64_nonneg as Hu.
+    assert (Ha' : 0 <= (1 + u64) * (a + u64 * H)) by (apply Rmult_le_pos; nra).
+    pose proof (IH H _ HH Ha') as IH'. fold q64 in IH'.
+    pose proof (q64_pow_ge1 n) as Hq. pose proof (q64_pow_ge1 (S n)) as Hq'.
+    pose proof (step_le H a n HH Ha) as Hs. pose proof (pos_INR n) as Hn.
+    change (q64 ^ S n) with (q64 * q64 ^ n) in *.
+    set (B := a + INR (S n) * u64 * H) in *.
+    assert (HB : a + u64 * H <= B).
+    { unfold B. rewrite S_INR. assert (0 <= INR n * u64 * H) by (apply Rmult_le_pos; [apply Rmult_le_pos|]; assumption). nra. }
+    assert (HB0 : 0 <= B) by (unfold B; pose proof (pos_INR (S n)); assert (0 <= INR (S n) * u64 * H) by (apply Rmult_le_pos; [apply Rmult_le_pos|]; assumption); lra).
+    (* second term *)
+    assert (T2 : INR n * u64 * (q64 * (a + u64 * H) + INR n * u64 * H) * q64 ^ n <= INR n * u64 * B * (q64 * q64 ^ n)).
+    { replace (INR n * u64 * B * (q64 * q64 ^ n)) with (INR n * u64 * (q64 * B) * q64 ^ n) by ring.
+      apply Rmult_le_compat_r; [lra|]. apply Rmult_le_compat_l; [apply Rmult_le_pos; assumption | exact Hs]. }
+    (* first term *)
+    assert (T1 : u64 * (a + u64 * H) <= u64 * B * (q64 * q64 ^ n)).
+    { assert (u64 * (a + u64 * H) <= u64 * B) by (apply Rmult_le_compat_l; assumption).
+      assert (0 <= u64 * B) by (apply Rmult_le_pos; assumption). nra. }
+    rewrite (S_INR n). fold q64. unfold q64 in IH' at 1. fold q64 in IH'. nra.
+Qed.
+
+(* closed form of the bound of [reported_sum_error] *)
+Corollary history_is_second_order n H : 0 <= H -> Dbound n H 0 <= INR n * INR n * (u64 * u64) * H * q64 ^ n.
+Proof.
+  intros HH. eapply Rle_trans; [apply Dbound_closed; [exact HH | lra]|]. rewrite Rplus_0_l. apply Req_le. ring.
+Qed.
